@@ -39,14 +39,14 @@ func nm(f string, a ...interface{}) string { return fmt.Sprintf(f, a...) }
 // amount in [0, max]
 func (l *Ledger) amt(name string) sdkmath.Int {
 	v := verifrt.Int(name)
-	verifrt.Assume(!v.IsNegative() && v.LTE(l.Max))
+	verifrt.Assume(verifrt.All(!v.IsNegative(), v.LTE(l.Max)))
 	return v
 }
 
 // share (LegacyDec) in [0, max units]
 func (l *Ledger) shr(name string) sdkmath.LegacyDec {
 	v := verifrt.Dec(name)
-	verifrt.Assume(!v.IsNegative() && v.LTE(sdkmath.LegacyNewDecFromInt(l.Max)))
+	verifrt.Assume(verifrt.All(!v.IsNegative(), v.LTE(sdkmath.LegacyNewDecFromInt(l.Max))))
 	return v
 }
 
@@ -266,13 +266,13 @@ func (l *Ledger) AssertInv(sn *Snap, assoc []int, tag string) {
 				self = self.Add(sn.Share[s][o])
 			}
 			pend = pend.Add(sn.Wait[s][o])
-			verifrt.Assert(!sn.Share[s][o].IsNegative() && !sn.Wait[s][o].IsNegative(), tag+": delegation figures non-negative")
+			verifrt.Assert(verifrt.All(!sn.Share[s][o].IsNegative(), !sn.Wait[s][o].IsNegative()), tag+": delegation figures non-negative")
 			verifrt.Assert(sn.InList[s][o] == sn.Share[s][o].IsPositive(), tag+": delegator list is exactly the set with non-zero shares")
 		}
 		verifrt.Assert(sn.PoolShare[o].Equal(sum), tag+": total shares equal the sum of delegator shares")
 		verifrt.Assert(sn.PoolOpShare[o].Equal(self), tag+": self-share equals the sum over associated delegators")
 		verifrt.Assert(sn.PoolPending[o].Equal(pend), tag+": operator pending figure equals the sum over its delegators")
-		verifrt.Assert(!sn.PoolAmount[o].IsNegative() && !sn.PoolPending[o].IsNegative(), tag+": pool figures non-negative")
+		verifrt.Assert(verifrt.All(!sn.PoolAmount[o].IsNegative(), !sn.PoolPending[o].IsNegative()), tag+": pool figures non-negative")
 		verifrt.Assert(sn.PoolAmount[o].IsZero() == sn.PoolShare[o].IsZero(), tag+": shares are zero exactly when the pool amount is zero")
 	}
 	for s := 0; s < l.NS; s++ {
@@ -281,24 +281,24 @@ func (l *Ledger) AssertInv(sn *Snap, assoc []int, tag string) {
 			pend = pend.Add(sn.Wait[s][o])
 		}
 		verifrt.Assert(sn.StPending[s].Equal(pend), tag+": staker pending figure equals the sum over operators")
-		verifrt.Assert(!sn.Withdrawable[s].IsNegative() && !sn.StPending[s].IsNegative(), tag+": staker figures non-negative")
+		verifrt.Assert(verifrt.All(!sn.Withdrawable[s].IsNegative(), !sn.StPending[s].IsNegative()), tag+": staker figures non-negative")
 	}
 }
 
 // AssertSame asserts two snapshots are identical (failure atomicity).
 func (l *Ledger) AssertSame(a, b *Snap, tag string) {
-	ok := a.StakingTotal.Equal(b.StakingTotal)
+	cs := []bool{a.StakingTotal.Equal(b.StakingTotal)}
 	for o := 0; o < l.NO; o++ {
-		ok = ok && a.PoolExists[o] == b.PoolExists[o] && a.PoolAmount[o].Equal(b.PoolAmount[o]) && a.PoolPending[o].Equal(b.PoolPending[o]) &&
-			a.PoolShare[o].Equal(b.PoolShare[o]) && a.PoolOpShare[o].Equal(b.PoolOpShare[o])
+		cs = append(cs, a.PoolExists[o] == b.PoolExists[o], a.PoolAmount[o].Equal(b.PoolAmount[o]), a.PoolPending[o].Equal(b.PoolPending[o]),
+			a.PoolShare[o].Equal(b.PoolShare[o]), a.PoolOpShare[o].Equal(b.PoolOpShare[o]))
 	}
 	for s := 0; s < l.NS; s++ {
-		ok = ok && a.StakerRow[s] == b.StakerRow[s] && a.Withdrawable[s].Equal(b.Withdrawable[s]) && a.Deposit[s].Equal(b.Deposit[s]) && a.StPending[s].Equal(b.StPending[s])
+		cs = append(cs, a.StakerRow[s] == b.StakerRow[s], a.Withdrawable[s].Equal(b.Withdrawable[s]), a.Deposit[s].Equal(b.Deposit[s]), a.StPending[s].Equal(b.StPending[s]))
 		for o := 0; o < l.NO; o++ {
-			ok = ok && a.EntryExists[s][o] == b.EntryExists[s][o] && a.Share[s][o].Equal(b.Share[s][o]) && a.Wait[s][o].Equal(b.Wait[s][o]) && a.InList[s][o] == b.InList[s][o]
+			cs = append(cs, a.EntryExists[s][o] == b.EntryExists[s][o], a.Share[s][o].Equal(b.Share[s][o]), a.Wait[s][o].Equal(b.Wait[s][o]), a.InList[s][o] == b.InList[s][o])
 		}
 	}
-	verifrt.Assert(ok, tag)
+	verifrt.Assert(verifrt.All(cs...), tag)
 }
 
 // DelegParams builds the keeper-level parameters for a (staker, operator) pair.
